@@ -62,6 +62,19 @@ def gen_fault_script(rng):
             w()
         if rng.random() < 0.3:
             L += [rng.choice(['close_active', 'force_update always']), 'snapcheck', 'tracecheck all']
+    if rng.random() < 0.3:
+        # an append whose caller was dropped is still running while a later append FAILS: the size counter must not fall
+        # below the range of the append in flight (finding F34, repaired), or the next record overwrites its bytes
+        seed += 1
+        L.append('fail append .blob 0 delay:%d' % rng.choice([250, 400]))
+        L.append('cancel 2 W %s 5 - 100000 %d' % ((seed % 7 + 1).to_bytes(K, 'big').hex(), seed))
+        L.append('fail append .blob 0 %s' % rng.choice(['EIO', 'ENOSPC', 'short:30']))
+        seed += 1
+        L.append('W %s 5 - 100 %d' % ((seed % 7 + 1).to_bytes(K, 'big').hex(), seed))
+        L += ['clearfail', 'sleep 600', 'snapcheck']
+        seed += 1
+        L.append('W %s 5 - 300 %d' % ((seed % 7 + 1).to_bytes(K, 'big').hex(), seed))
+        L += ['snapcheck']
     if rng.random() < 0.5:
         # the fault hits the CREATION of a blob (its 20-byte header is written short, or cannot be synced): whatever
         # reached the new file stays there (or goes to the quarantine directory at the next start), it is not removed
